@@ -197,7 +197,7 @@ def names_case(ck: Check, camp, values: list[str], cfg: Cfg, model: str, positio
         cl = {**base, "mechanism": "import_error", "error": type(e).__name__}
         if (cl["trigger"] == "none" and model == "pydantic_v2.BaseModel" and cfg.snake and cfg.cap
                 and ((isinstance(e, TypeError) and "already defined" in str(e)) or (isinstance(e, ValueError) and "'mro'" in str(e)))):
-            # known finding C07-ENUM-V2-RELOWER (C09-F2 / C09-F4): Parser.__change_field_name lower-cases the capitalised members again
+            # known finding C07-ENUM-V2-RELOWER (C09-F2 / C09-F7): Parser.__change_field_name lower-cases the capitalised members again
             cl["trigger"] = "v2_snake_after_capitalise"
         ck.fail(cl, inp, f"importing the emitted module raised {type(e).__name__}: {str(e)[:200]}")
         return
